@@ -68,6 +68,7 @@ type FuncCtx struct {
 	qname string // pkgpath.Recv.Name
 	short string // shortpkg.Recv.Name
 	ieee  bool
+	real  bool // floats are mathematical reals (second pass for [real] clauses)
 	ovf   bool
 	cfg   string
 
@@ -104,6 +105,7 @@ type FuncCtx struct {
 	deferred       []*ast.DeferStmt
 	curNode        ast.Node
 	defs           map[string]string
+	boolDefs       map[string]string
 	defers         []*ast.DeferStmt
 	goDepth        int
 	inQuant        int
@@ -185,7 +187,20 @@ func (fx *FuncCtx) define(base string, t Term) Term {
 		}
 		fx.defs[name] = t.S
 	}
+	if t.Sort == SBool {
+		fx.noteBoolDef(name, t.S)
+	}
 	return Term{name, t.Sort}
+}
+
+func (fx *FuncCtx) noteBoolDef(name, body string) {
+	if len(body) >= 1000 {
+		return
+	}
+	if fx.boolDefs == nil {
+		fx.boolDefs = map[string]string{}
+	}
+	fx.boolDefs[name] = body
 }
 
 type fxSnapshot struct {
@@ -279,6 +294,10 @@ func instantiate(h string, grounds []string, goalIdx []string, out *[]string) {
 	if n.isApp("=>") && len(n.kids) == 3 && n.kids[2].isApp("forall") {
 		guard = n.kids[1]
 		n = n.kids[2]
+	}
+	if n.isApp("forall") && len(n.kids) == 3 && len(n.kids[1].kids) == 2 {
+		instantiatePair(n, guard, grounds, goalIdx, out)
+		return
 	}
 	if !n.isApp("forall") || len(n.kids) != 3 || len(n.kids[1].kids) != 1 {
 		return
@@ -404,6 +423,121 @@ func instantiate(h string, grounds []string, goalIdx []string, out *[]string) {
 		}
 		*out = append(*out, inst)
 	}
+}
+
+// matchCandidates proposes instances for the bound variable q of body: the
+// given ground terms plus, for an index (a + q + b) in the body and a goal
+// index G, the term G - a - b (matching modulo linear arithmetic).
+func matchCandidates(body, q string, others []string, grounds, goalIdx []string, max int) []string {
+	var bodyIdx []string
+	acc := map[string]bool{}
+	indexTermsOnly(body, acc)
+	for t := range acc {
+		bodyIdx = append(bodyIdx, t)
+	}
+	sort.Strings(bodyIdx)
+	seen := map[string]bool{}
+	var matched []string
+	for _, bi := range bodyIdx {
+		var ts []sterm
+		flattenSum(parseSx(bi), false, nil, 0, &ts)
+		var rest []sterm
+		nq := 0
+		other := false
+		for _, t := range ts {
+			if t.t.String() == q && !t.neg {
+				nq++
+			} else {
+				for _, o := range others {
+					if replaceSym(t.t.String(), o, "") != t.t.String() {
+						other = true
+					}
+				}
+				rest = append(rest, t)
+			}
+		}
+		if nq != 1 || other {
+			continue
+		}
+		for _, g := range goalIdx {
+			var gs []sterm
+			flattenSum(parseSx(g), false, nil, 0, &gs)
+			for _, r := range rest {
+				gs = append(gs, sterm{!r.neg, r.t})
+			}
+			c := sumOf(cancelTerms(gs)).S
+			if !seen[c] && len(c) < 200 && replaceSym(c, q, "") == c {
+				seen[c] = true
+				matched = append(matched, c)
+			}
+		}
+	}
+	for _, g := range grounds {
+		if !seen[g] {
+			seen[g] = true
+			matched = append(matched, g)
+		}
+	}
+	if len(matched) > max {
+		matched = matched[:max]
+	}
+	return matched
+}
+
+// instantiatePair instantiates a hypothesis (forall ((a Int) (b Int)) body).
+func instantiatePair(n *sx, guard *sx, grounds, goalIdx []string, out *[]string) {
+	a, b := n.kids[1].kids[0], n.kids[1].kids[1]
+	if len(a.kids) != 2 || len(b.kids) != 2 || a.kids[1].String() != "Int" || b.kids[1].String() != "Int" {
+		return
+	}
+	body := n.kids[2].String()
+	qa, qb := a.kids[0].atom, b.kids[0].atom
+	ca := append([]string{"0"}, matchCandidates(body, qa, []string{qb}, grounds, goalIdx, 10)...)
+	cb := append([]string{"0"}, matchCandidates(body, qb, []string{qa}, grounds, goalIdx, 10)...)
+	for _, x := range ca {
+		for _, y := range cb {
+			if x == y {
+				continue
+			}
+			inst := replaceSym(replaceSym(body, qa, x), qb, y)
+			if guard != nil {
+				inst = "(=> " + guard.String() + " " + inst + ")"
+			}
+			*out = append(*out, inst)
+		}
+	}
+}
+
+// unitPropagate rewrites hypotheses (= A phi) and (=> A phi) to phi when the
+// propositional constant A is itself a hypothesis (so that quantified phi are
+// visible to the instantiation step).
+func unitPropagate(hyps []Term) []Term {
+	units := map[string]bool{}
+	for _, h := range hyps {
+		if !strings.ContainsAny(h.S, "() ") {
+			units[h.S] = true
+		}
+	}
+	if len(units) == 0 {
+		return hyps
+	}
+	var out []Term
+	changed := false
+	for _, h := range hyps {
+		if (strings.HasPrefix(h.S, "(= ") || strings.HasPrefix(h.S, "(=> ")) && strings.Contains(h.S, "(forall ") {
+			n := parseSx(h.S)
+			if len(n.kids) == 3 && n.kids[1].kids == nil && units[n.kids[1].atom] {
+				out = append(out, Term{n.kids[2].String(), SBool})
+				changed = true
+				continue
+			}
+		}
+		out = append(out, h)
+	}
+	if !changed {
+		return hyps
+	}
+	return out
 }
 
 // indexTerms collects the terms used as array indices in t (and their summands).
@@ -534,6 +668,7 @@ func (fx *FuncCtx) buildQuery(hyps []Term, goal Term) string {
 			skDecls += db.String()
 		}
 	}
+	hyps = unitPropagate(hyps)
 	var extra []string
 	if strings.Contains(goal.S, "select") || len(sks) > 0 {
 		hasQ := false
@@ -568,6 +703,59 @@ func (fx *FuncCtx) buildQuery(hyps []Term, goal Term) string {
 			if len(goalIdx) > 8 {
 				goalIdx = goalIdx[:8]
 			}
+			// element positions named by branch conditions on the path
+			// (propositional constants with a definition)
+			{
+				hi := map[string]bool{}
+				for _, h := range hyps {
+					a := h.S
+					if strings.HasPrefix(a, "(not ") && strings.HasSuffix(a, ")") {
+						a = a[5 : len(a)-1]
+					}
+					if d, ok := fx.boolDefs[a]; ok && !strings.Contains(d, "(forall ") {
+						indexTermsOnly(d, hi)
+					}
+				}
+				var hs []string
+				for g := range hi {
+					if !hasBoundVar(g) && len(g) < 120 {
+						hs = append(hs, g)
+					}
+				}
+				sort.Strings(hs)
+				// and by small ground comparisons on the path, latest first
+				for i := len(hyps) - 1; i >= 0 && len(hs) < 12; i-- {
+					h := hyps[i].S
+					if len(h) > 300 || !strings.Contains(h, "(select ") || strings.Contains(h, "(forall ") {
+						continue
+					}
+					pi := map[string]bool{}
+					indexTermsOnly(h, pi)
+					var ps []string
+					for g := range pi {
+						if !hasBoundVar(g) && len(g) < 120 && !hi[g] {
+							hi[g] = true
+							ps = append(ps, g)
+						}
+					}
+					sort.Strings(ps)
+					hs = append(hs, ps...)
+				}
+				for _, g := range hs {
+					if len(goalIdx) >= 12 {
+						break
+					}
+					dup := false
+					for _, o := range goalIdx {
+						if o == g {
+							dup = true
+						}
+					}
+					if !dup {
+						goalIdx = append(goalIdx, g)
+					}
+				}
+			}
 			var grounds []string
 			for g := range acc {
 				if len(g) < 200 && !hasBoundVar(g) {
@@ -586,7 +774,7 @@ func (fx *FuncCtx) buildQuery(hyps []Term, goal Term) string {
 		}
 	}
 	var b strings.Builder
-	b.WriteString(preamble(fx.ieee))
+	b.WriteString(preamble(fx.ieee, fx.real))
 	perm := map[string]bool{}
 	for _, d := range fx.permDecls {
 		if perm[d] {
@@ -677,6 +865,9 @@ func (fx *FuncCtx) obligeKind(st *State, kind string, goal Term, node ast.Node, 
 func (fx *FuncCtx) oblige(st *State, kind string, goal Term, node ast.Node, what string) {
 	if fx.discard > 0 {
 		return
+	}
+	if fx.real && !strings.HasSuffix(kind, ".real") {
+		return // the real-arithmetic pass only decides the [real] clauses
 	}
 	if what == "" {
 		what = fx.src(node)
@@ -844,11 +1035,17 @@ func (fx *FuncCtx) zeroVal(t types.Type) Val {
 
 func (fx *FuncCtx) floatConst(v float64, s Sort) Term {
 	if s == SF32 {
+		if fx.real {
+			return realLit(float64(float32(v)), s)
+		}
 		t, d := f32Lit(float32(v), fx.ieee)
 		if d != "" {
 			fx.declare(d)
 		}
 		return t
+	}
+	if fx.real {
+		return realLit(v, s)
 	}
 	t, d := f64Lit(v, fx.ieee)
 	if d != "" {
